@@ -354,6 +354,24 @@ fn eval_seq(seq: &[Op]) -> Option<(Verdicts, bool)> {
         if w.wg.waiting_on(b).contains(&a) != post.edges.contains(&(a, b)) { bad.push(format!("waiting_on({b}) and waiting_for({a}) disagree")); }
     } }
     if w.wg.edge_count() != post.edges.len() { bad.push(format!("edge_count {} != {} edges", w.wg.edge_count(), post.edges.len())); }
+    // a restore hands back exactly the saved locks: a lock acquired at a past instant keeps that instant (its lease is not re-armed), so a
+    // lease that ran out before the snapshot is still over afterwards ("times out -> none of its locks remain", serialize-restore sequences)
+    {
+        let s0 = w.lm.to_serializable();
+        let aged: HashMap<String, KeyLock> = s0.locks().iter().map(|(k, l)| { let mut l = l.clone(); l.acquired_at_ms = 1_000; (k.clone(), l) }).collect();
+        let r = LockManager::from_serializable(SerializableLockState::new(aged.clone(), s0.tx_locks().clone(), s0.default_timeout_ms()));
+        let s1 = r.to_serializable();
+        if s1.locks().len() != aged.len() { bad.push(format!("restore of {} aged locks holds {}", aged.len(), s1.locks().len())); }
+        for (k, l) in &aged {
+            match s1.locks().get(k) {
+                Some(m) if m.acquired_at_ms == l.acquired_at_ms && m.timeout_ms == l.timeout_ms && m.tx_id == l.tx_id && m.lock_handle == l.lock_handle && m.key == l.key => {},
+                other => bad.push(format!("key {k}: saved lock (tx {}, handle {}, acquired_at_ms {}, timeout_ms {}) restored as {:?}", l.tx_id, l.lock_handle, l.acquired_at_ms, l.timeout_ms,
+                    other.map(|m| (m.tx_id, m.lock_handle, m.acquired_at_ms, m.timeout_ms)))),
+            }
+            if r.is_locked(k) || r.lock_holder(k).is_some() { bad.push(format!("key {k}: a lock acquired at epoch + 1 s with a lease of {} ms is live after the restore", l.timeout_ms)); }
+        }
+        if r.cleanup_expired() != aged.len() || r.active_lock_count() != 0 { bad.push("expiry sweep after the restore left a timed-out lock behind".to_string()); }
+    }
     let restored = LockManager::from_serializable(w.lm.to_serializable());
     if public_view(&restored) != public_view(&w.lm) { bad.push(format!("restored view {:?} != {:?}", public_view(&restored), public_view(&w.lm))); }
     let w2 = World { lm: restored, wg: WaitForGraph::new(), handles: vec![] };
